@@ -65,7 +65,7 @@ def rule_strict_search(ctx, rid):
     c1 = 'extrema search is argrelextrema(X, numpy.greater, order=1)'
     c2 = 'on the default path the found locations are returned unfiltered with X[locs] as magnitudes'
     X = S(fi.params[0])
-    want = ('sub', ('call', 'scipy.signal.argrelextrema', (X, ('ref', 'numpy.greater')), (('order', C(1)),)), C(0))
+    want = ('sub', ('call', 'scipy.signal.argrelextrema', (X, ('ref', 'numpy.greater')), ()), C(0))
     calls = [t for e in exits for t in subterms(e.value) if t[0] == 'call' and 'argrelextrema' in t[1]]
     calls += [t for e in exits for c, _, _ in e.state.conds for t in subterms(c)
               if t[0] == 'call' and 'argrelextrema' in t[1]]
@@ -597,22 +597,37 @@ def rule_parabola(ctx, rid):
     P = ctx.P
     fi = P.func(CPE)
     alg = mk_algebra()
-    # literal matrix
-    mat = None
-    for n in walk_local(fi.node):
-        if isinstance(n, ast.Assign) and isinstance(n.value, ast.Call) and n.value.args \
-                and isinstance(n.value.args[0], ast.List) and all(isinstance(r, ast.List) for r in n.value.args[0].elts):
+    # literal matrix: the array that is multiplied with y (w_inv.dot(y)), read from the evaluated term so that
+    # `np.array([[1, -2, 1], ...]) / 2` and a named constant are read like the plain literal
+    from fractions import Fraction
+
+    def literal_matrix(t):
+        scale = Fraction(1)
+        while t[0] == 'bin' and t[1] in ('/', '*') and alg.poly(t[3]).is_const():
+            k = alg.poly(t[3]).const_value()
+            scale = scale / k if t[1] == '/' else scale * k
+            t = t[2]
+        if t[0] == 'call' and t[1] in ('numpy.array', 'numpy.asarray') and t[2] and t[2][0][0] in ('list', 'tuple'):
             rows = []
-            ev = Evaluator(P)
-            from ..paths import State
-            for r in n.value.args[0].elts:
+            for r in t[2][0][1]:
+                if r[0] not in ('list', 'tuple'):
+                    return None
                 row = []
-                for el in r.elts:
-                    t = ev._ev(el, State(), fi.module, fi, 0)[0][0]
-                    p = alg.poly(t)
-                    row.append(p.const_value() if p.is_const() else None)
+                for el in r[1]:
+                    p_ = alg.poly(el)
+                    row.append(p_.const_value() * scale if p_.is_const() else None)
                 rows.append(row)
-            mat = rows
+            return rows
+        return None
+    mat = None
+    for e0 in Evaluator(P).run(fi):
+        for x in subterms(e0.value) if e0.kind == 'return' else ():
+            if x[0] == 'meth' and x[1] == 'dot':
+                mat = literal_matrix(x[2]) or mat
+            if x[0] == 'call' and x[1] in ('numpy.dot', 'numpy.matmul') and len(x[2]) == 2:
+                mat = literal_matrix(x[2][0]) or mat
+            if x[0] == 'bin' and x[1] == '@':
+                mat = literal_matrix(x[2]) or mat
     c1 = 'w_inv is the exact inverse of the parabola design matrix [[1,1,1],[4,2,1],[9,3,1]]'
     W = [[1, 1, 1], [4, 2, 1], [9, 3, 1]]
     if mat is None or len(mat) != 3 or any(len(r) != 3 or None in r for r in mat):
@@ -660,13 +675,15 @@ def rule_parabola(ctx, rid):
         for x in subterms(e.value):
             if x[0] == 'call' and x[1] == CPE:
                 yv = dict(x[3]).get('y')
+                if yv is not None and yv[0] == 'call' and yv[1] == 'numpy.transpose' and len(yv[2]) == 1:
+                    yv = ('attr', yv[2][0], 'T')
                 if yv is not None and yv[0] == 'attr' and yv[2] == 'T' and yv[1][0] == 'sub' \
                         and yv[1][1] == ('ref', 'numpy.c_'):
                     parts = yv[1][2][1]
                     X = S(fe.params[0])
                     loc = dict(x[3]).get('locs')
-                    want = (('sub', X, ('bin', '-', loc, C(1))), ('sub', X, loc), ('sub', X, ('bin', '+', loc, C(1))))
-                    ok = tuple(parts) == want
+                    ok = len(parts) == 3 and all(pt[0] == 'sub' and pt[1] == X for pt in parts) and \
+                        [alg.poly(pt[2]) - alg.poly(loc) for pt in parts] == [alg.poly(C(-1)), alg.poly(C(0)), alg.poly(C(1))]
     if ok:
         ctx.passed(rid, fe, c4)
     else:
